@@ -111,5 +111,33 @@ func TempDir(dir, pattern string) (string, error) {
 	}
 }
 
-// IOPoint is a yield (and crash point) in front of a file operation.
-func IOPoint(site string) { Yield(site) }
+// IOPoint is a yield (and crash point) in front of a file operation: with
+// Config.CrashIO = k the simulated process dies in front of its k-th file
+// operation (everything written before stays on disk, nothing after happens).
+func IOPoint(site string) {
+	s := cur.Load()
+	if s == nil || s.passive.Load() != 0 {
+		return
+	}
+	Yield(site)
+	if s.crashed.Load() {
+		return
+	}
+	n := s.ioN.Add(1)
+	if s.cfg.CrashIO > 0 && int(n) == s.cfg.CrashIO {
+		s.crashSite.Store(site)
+		Probe("process died in front of a file operation")
+		s.Crash("io:" + site)
+	}
+}
+
+// IOCount is the number of file operations the simulated process reached.
+func (s *Sim) IOCount() int { return int(s.ioN.Load()) }
+
+// CrashSite is the site of the file operation an injected crash preceded.
+func (s *Sim) CrashSite() string {
+	if v, ok := s.crashSite.Load().(string); ok {
+		return v
+	}
+	return ""
+}
